@@ -233,7 +233,8 @@ impl Prop for C19 {
             }
             12..=15 => c.truncate = Some(rng.below(len + 1)),
             _ => {
-                c.corrupt = Some(match rng.below(3) {
+                c.corrupt = Some(match rng.below(4) {
+                    3 => QCorrupt::CountBeyondFile(rng.below(64) as u32, rng.below(4) as u8),
                     0 => QCorrupt::TypeCode(rng.below(3) as u8),
                     1 => QCorrupt::Count(rng.below(64) as u32),
                     _ => QCorrupt::Number(rng.below(64) as u32),
@@ -355,6 +356,7 @@ impl Prop for C19 {
                     x.count("probe.malformed_rejected");
                     match line_of_error(&msg) {
                         Some(l) if l == line => {}
+                        Some(l) if r.corrupt_line_is_lower_bound && l >= line && l <= r.n_lines + 1 => x.count("probe.count_beyond_file_rejected"),
                         other => x.violate("C19:malformed-wrong-line", format!("corrupted token on line {line}; error reports line {:?}: {msg}", other)),
                     }
                 } else if case.truncate.is_some() && (case.truncate.unwrap() as usize) < full_len {
@@ -476,7 +478,7 @@ impl Prop for C19 {
     }
 
     fn rule(&self) -> String {
-        "one run = (abstract QP with <=5 variables and <=4 constraints for a random type code from {L,D,C,Q}x{C,B,M,I,G}x{N,B,L,D,C,Q}: lower-triangle entries incl. diagonal, default and non-default b0, constant, infinity value with bounds at/above/below it, two-sided/one-sided sides, names, starting points; layout: trailing text, comment and blank lines, tab/blank separators, number styles, CRLF, trailing lines, word case; entry: qplib::load_file on the simulated disk or QplibFile::from_reader on a simulated stream; schedule: chunking; faults: EINTR, short reads, EIO at byte k / call j, open failure; truncation at byte k; one-token corruption of a type-code letter, a count or a number). Enumerated part: truncation at every byte of N files. distinct = distinct event-log hash; every run is non-trivial (>=1 variable)".into()
+        "one run = (abstract QP with <=5 variables and <=4 constraints for a random type code from {L,D,C,Q}x{C,B,M,I,G}x{N,B,L,D,C,Q}: lower-triangle entries incl. diagonal, default and non-default b0, constant, infinity value with bounds at/above/below it, two-sided/one-sided sides, names, starting points; layout: trailing text, comment and blank lines, tab/blank separators, number styles, CRLF, trailing lines, word case; entry: qplib::load_file on the simulated disk or QplibFile::from_reader on a simulated stream; schedule: chunking; faults: EINTR, short reads, EIO at byte k / call j, open failure; truncation at byte k; one-token corruption of a type-code letter, a count or a number; an entry count replaced by one far beyond the file: 10^9, 10^12, 2^62, 2^64-1). Enumerated part: truncation at every byte of N files. distinct = distinct event-log hash; every run is non-trivial (>=1 variable)".into()
     }
     fn assumptions(&self) -> Vec<String> {
         vec![
@@ -493,7 +495,7 @@ impl Prop for C19 {
         vec!["libc read/open and the SimReader stream (fault plan applied, then the real call)", "the producer of the file (independent renderer)"]
     }
     fn required_probes(&self, _t: Tier) -> Vec<&'static str> {
-        vec!["fault.eio_read", "fault.eintr_read", "fault.short_read", "fault.open_fail", "probe.malformed_rejected", "probe.truncation_rejected", "probe.err_after_hard_fault", "probe.file_larger_than_bufreader", "sys.read"]
+        vec!["fault.eio_read", "fault.eintr_read", "fault.short_read", "fault.open_fail", "probe.malformed_rejected", "probe.count_beyond_file_rejected", "probe.truncation_rejected", "probe.err_after_hard_fault", "probe.file_larger_than_bufreader", "sys.read"]
     }
 }
 
